@@ -118,7 +118,8 @@ def judge_model(case):
     # (curve-building entry points are exempt: DiffusionCurve has no model parameter and always evaluates NRTL,
     #  which the statement does not speak about)
     if not v and case["kind"] in ("nrtl_missing", "uniquac_missing") and case["ep"] not in ("ideal_curve", "nonideal_curve") \
-            and case["mode"] == "vac":  # in vacuum nothing but the model's parameters can make the call raise
+            and case["mode"] == "vac" and 0.0 < case["x"] < 1.0:  # in vacuum, away from pure feeds (separation factor divides by the
+        # feed fraction), nothing but the model's parameters can make the call raise
         st2, r2 = invoke(case["ep"], mix, other, case["x"], case["T"], tp, pp)
         if st2 != "ok":
             v.append(core.viol("C19/valid_specification_rejected/" + case["ep"], "%s rejects model %s whose parameters are present: %r" % (case["ep"], other, r2)))
@@ -197,7 +198,7 @@ def main(tier, seed):
                                        space="permeate_specification", index=-1, case={"ep": ep, "cell": cell}))
     sp2 = core.Space("model_parameters", {"ep": MODEL_ENTRY_POINTS, "kind": ["nrtl_missing", "uniquac_missing", "constants_missing_first",
                                                                               "constants_missing_second"],
-                                          "mode": ["vac", "T", "p"], "x": xs, "T": ts},
+                                          "mode": ["vac", "T", "p"], "x": xs + [0.0, 1.0], "T": ts},  # incl. pure feeds: no shortcut may bypass the checks
                      lambda c: not (c["ep"] == "partial_pressures" and c["mode"] != "vac"))
     core.run_space(rep, sp2, judge_model)
     misc = [{"kind": "mixture_without_parameters"}]
@@ -211,6 +212,9 @@ def main(tier, seed):
                     if n == 0 and site != "calculate_activation_energy":
                         continue
                     misc.append({"kind": "activation_energy", "n": n, "site": site, "T": t - 7.0, "x": x})
+            # the non-isothermal model needs the activation energy even when it STARTS at the curve's temperature (it drifts away)
+            for n in (1, 2):
+                misc.append({"kind": "activation_energy", "n": n, "site": "nonideal_noniso", "T": 333.15, "x": x})
     core.run_space(rep, core.ListSpace("misc_rejections", misc), judge_misc)
     return rep.finish()
 
